@@ -129,6 +129,7 @@ def engine_oracle(engines, check_align=False):
         ikv = ikv or {}
         if impl == "panic" or impl.startswith("crash"): return "harness/interpreter panicked or crashed"
         fi = dict(x.split("=", 1) for x in impl.split()[1:] if "=" in x)
+        corr = None
         for e in engines:
             val = ikv.get(e)
             if val is None: continue
@@ -146,7 +147,7 @@ def engine_oracle(engines, check_align=False):
                 if v0 != sem and not (v0 == "compile-err" and sem in ("compile-err",)): return "%s: compile outcome '%s' where the model says '%s'" % (e, v0, sem)
                 continue
             if e == "jit" and ikv.get("jitcode") is not None and mkv.get("jitcodesem") is not None and ikv["jitcode"] != mkv["jitcodesem"]:
-                return "CORR:the JIT's machine code (%s) differs from the byte-exact emitter model's (%s)" % (ikv["jitcode"], mkv["jitcodesem"])
+                corr = "CORR:the JIT's machine code (%s) differs from the byte-exact emitter model's (%s)" % (ikv["jitcode"], mkv["jitcodesem"])
             if v0 == "compiled" or mkv.get("claim") != "in": continue
             want = "ok:r0=%s:mem=%s:mbuff=%s:LOG=%s" % (fi.get("r0"), fi.get("mem"), fi.get("mbuff"), fi.get("log"))
             got, _, al = v0.partition(":align=")
@@ -155,7 +156,7 @@ def engine_oracle(engines, check_align=False):
                 mkv["engine_as_modelled"] = "1" if got == sem else "0"
                 mkv["engine"] = e
                 return "%s gives '%s' where the interpreter gives '%s'" % (e, got[:90], want[:90])
-        return None
+        return corr
     return f
 
 def oracle_c11(line, impl, mkv, ikv=None, model=None):
